@@ -29,7 +29,7 @@ BUDGET = {
             "thorough": {"malloc": 6000000, "heap": 2000000, "noinfo": 2000000, "dtostre": 2000000}},
     "C02": {"quick": {"malloc": 150000}, "thorough": {"malloc": 12000000}},
     "C05": {"quick": {"malloc": 150000}, "thorough": {"malloc": 30000000}},
-    "C06": {"quick": {"malloc": 150000}, "thorough": {"malloc": 30000000}},
+    "C06": {"quick": {"malloc": 150000, "user": 50000}, "thorough": {"malloc": 24000000, "user": 6000000}},
     "C08": {"quick": {"malloc": 100000}, "thorough": {"malloc": 4000000}},
     "C09": {"quick": {"malloc": 100000}, "thorough": {"malloc": 12000000}},
     "C10": {"quick": {"malloc": 120000, "noinfo": 60000}, "thorough": {"malloc": 4000000, "noinfo": 2000000}},
